@@ -55,11 +55,13 @@ pub fn expand_self<T: VisitableMut + Clone>(input: &T, to: &Type) -> T {
 }
 
 /// Returns `ty`, parenthesized if it cannot directly follow `&` or `&'a`
-/// (e.g. `dyn A + B` must be written `&(dyn A + B)`).
+/// (e.g. `dyn A + B` must be written `&(dyn A + B)`, and rustc does not parse the
+/// where predicate `&'a fn(T): Trait` unless it is written `&'a (fn(T)): Trait`).
 pub fn to_ref_elem_type(ty: &Type) -> Type {
     let need_paren = match ty {
         Type::TraitObject(t) => t.bounds.len() > 1 || t.bounds.trailing_punct(),
         Type::ImplTrait(t) => t.bounds.len() > 1 || t.bounds.trailing_punct(),
+        Type::BareFn(t) => matches!(t.output, syn::ReturnType::Default),
         _ => false,
     };
     if need_paren {
